@@ -283,4 +283,5 @@ def run(ctx: Ctx, tier: str) -> Result:
     borrow(ctx, res, tier, "c11", ("C11.ISOLATE",), "C12.APPLY", "an answer with one tracepoint the agent cannot interpret is still taken over (hash and the other tracepoints): "
            "otherwise the same answer is refused at every poll and the agent stays on the older configuration")
     borrow(ctx, res, tier, "c03", ("C03.LOOP",), "C12.ACT", "the agent acts on every installed tracepoint of a location, the registered ones next to the service's")
+    borrow(ctx, res, tier, "c09", ("C09.C",), "C12.NOTIFY", "the task that publishes a configuration is never refused or dropped by the task handler while it is open")
     return res
